@@ -651,74 +651,6 @@ def exhaustive_xcases():
     return cases
 
 
-# ---- known-finding classes (decided structurally on the implementation's trace)
-def _items_until_end(tr):
-    out = []
-    for _, _, st in tr:
-        if st == "E":
-            return out, True
-        if isinstance(st, list):
-            out.append(st[1])
-    return out, False
-
-
-def _hint_violations(tr):
-    kinds = set()
-    for i in range(len(tr)):
-        rest, ended = _items_until_end(tr[i:])
-        if not ended:
-            break
-        lo, hi, st = tr[i]
-        if lo > len(rest):
-            kinds.add("lower")
-        if hi is not None and hi < len(rest):
-            kinds.add("upper")
-        if st == "E":
-            break
-    return kinds
-
-
-FU_PY = {"a_half": lambda x: (x // 2) if x % 2 == 0 else None, "a_now": lambda x: x + 1,
-         "a_none": lambda x: None, "a_slow": lambda x: x}
-
-
-def script_items(s):
-    out = []
-    for x in s:
-        if x == "E":
-            break
-        if x != "P":
-            out.append(x)
-    return out
-
-
-def finding_key_c11x(case, res):
-    """filter_map_async: size_hint's upper bound forgets the item held by the in-flight future;
-    stream_ready: size_hint's lower bound counts items behind a Pending, which it reports as the end.
-    Only when everything else about the trace is right."""
-    if case.get("k") != "c11x" or not isinstance(res, dict) or "trace" not in res:
-        return None
-    tr = res["trace"]
-    got, ended = _items_until_end(tr)
-    if not ended:
-        return None
-    viol = _hint_violations(tr)
-    s = case["ins"][0]["s"]
-    if case["comb"] == "filter_map_async":
-        ref = [y for y in (FU_PY[case["fn"]](x) for x in script_items(s)) if y is not None]
-        if got == ref and viol == {"upper"}:
-            return "filter_map_async/size_hint/upper-ignores-inflight-future"
-    if case["comb"] == "stream_ready":
-        ref = []
-        for x in s:
-            if x in ("P", "E"):
-                break
-            ref.append(x)
-        if got == ref and viol == {"lower"}:
-            return "stream_ready/size_hint/lower-counts-items-behind-pending"
-    return None
-
-
 def shrink_x(case):
     ins = case["ins"]
     for i, inp in enumerate(ins):
